@@ -193,4 +193,21 @@ def Grp.postInit (pre : Grp) : Res Grp := do
   let g ← g.reassign "time_end"
   g.reassign "antialiased"
 
+/-- `self.__getattribute__(k)` for a field name `k` (instance dictionary; methods and class attributes, which
+    `__getattribute__` also finds, are outside the model): `AttributeError` if there is no such field. -/
+def Grp.getAttr (k : String) (g : Grp) : Res Val :=
+  match g.get k with
+  | some v => .ok v
+  | none => .error .attr
+
+/-- `BaseParam.__getitem__` (draw_params.py:54-59): the field, `KeyError` instead of `AttributeError`. -/
+def Grp.getItem (k : String) (g : Grp) : Res Val :=
+  match g.get k with
+  | some v => .ok v
+  | none => .error .key
+
+/-- `BaseParam.__setitem__` (draw_params.py:61-65): `__setattr__`; it never raises `AttributeError` (an undeclared
+    name is ignored by the own store and handed on to the nested groups), so the `KeyError` branch is dead. -/
+def Grp.setItem (k : String) (v : Val) (g : Grp) : Res Grp := g.setPy k v
+
 end CR.Params
